@@ -399,6 +399,31 @@ class Inliner:
                 c = self._resolve_in(cx, st.value, stack)
                 if c is not None:
                     return self._expand(cx.scope, c, st.value, None, stack, depth)
+            if isinstance(st, ast.Assign) and len(st.targets) == 1 and isinstance(st.targets[0], ast.Name) and isinstance(st.value, ast.ListComp) \
+                    and len(st.value.generators) == 1 and not st.value.generators[0].is_async:
+                # xs = [helper(a, ...) for a in it if c]   ->   xs = []; for a in it: if c: xs.append(helper(a, ...))
+                # (only when the element calls a helper that can be spliced; the loop variable gets a fresh name so that it
+                # cannot leak over a local of the function, as a comprehension variable cannot)
+                comp = st.value
+                g = comp.generators[0]
+                calls_helper = any(isinstance(x, ast.Call) and self._resolve_in(cx, x, stack) is not None for x in ast.walk(comp.elt))
+                tnames = [x.id for x in ast.walk(g.target) if isinstance(x, ast.Name)]
+                if calls_helper and tnames and st.targets[0].id not in tnames:
+                    self.counter += 1
+                    ren = _Renamer({nm: f"__i{self.counter}_{nm}" for nm in tnames})
+                    tgt = ren.visit(clone(g.target))
+                    elt = ren.visit(clone(comp.elt))
+                    ifs = [ren.visit(clone(c)) for c in g.ifs]
+                    acc = st.targets[0].id
+                    app = ast.Expr(value=ast.Call(func=ast.Attribute(value=ast.Name(id=acc, ctx=ast.Load()), attr="append", ctx=ast.Load()), args=[elt], keywords=[]))
+                    body: list[ast.stmt] = [ast.copy_location(app, st)]
+                    for c in reversed(ifs):
+                        body = [ast.copy_location(ast.If(test=c, body=body, orelse=[]), st)]
+                    loop = ast.copy_location(ast.For(target=tgt, iter=clone(g.iter), body=body, orelse=[], type_comment=None), st)
+                    init = ast.copy_location(ast.Assign(targets=[ast.Name(id=acc, ctx=ast.Store())], value=ast.List(elts=[], ctx=ast.Load()), type_comment=None), st)
+                    for x in (loop, init):
+                        ast.fix_missing_locations(x)
+                    return [init] + self._stmt(cx, loop, stack, depth)
             if isinstance(st, ast.Return) and isinstance(st.value, ast.Call):
                 # tail call of a helper: any Return still standing is a return of the function being rewritten (the returns of
                 # non-tail spliced bodies have become assignments + break)
@@ -924,8 +949,9 @@ def _propagate_copies(fn) -> int:
                 for st in list(lst):
                     if isinstance(st, ast.Assign) and len(st.targets) == 1 and isinstance(st.targets[0], ast.Name) and isinstance(st.value, ast.Name):
                         a, b = st.targets[0].id, st.value.id
-                        if a == b or a in params or stores.get(a) != 1 or stores.get(b, 0) != 1 or b in params or a in nested_names or not b.startswith("__"):
-                            continue
+                        if a == b or a in params or stores.get(a) != 1 or stores.get(b, 0) != 1 or b in params or a in nested_names \
+                                or not (a.startswith("__") or b.startswith("__")):
+                            continue  # (only temporaries made by the normalisations themselves are merged)
                         for x in ast.walk(fn):
                             if isinstance(x, ast.Name) and x.id == a and isinstance(x.ctx, ast.Load):
                                 x.id = b
@@ -1085,8 +1111,12 @@ def build_inlined_repo(root=None, keep: set[str] | None = None) -> tuple[Repo, d
         # object from the FuncInfo of the nested function)
         for fn_node in [n for n in ast.walk(mod.tree) if isinstance(n, (ast.FunctionDef, ast.AsyncFunctionDef))]:
             try:
-                _propagate_copies(fn_node)
-                sra += _scalar_replace_records(work, mod, fn_node)
+                for _round in range(3):  # records inside records, copies of copies
+                    _propagate_copies(fn_node)
+                    got = _scalar_replace_records(work, mod, fn_node)
+                    sra += got
+                    if not got:
+                        break
             except Exception:  # noqa: BLE001 - a normalisation that cannot be applied is simply not applied
                 pass
     inl.stats["records_replaced"] = sra
